@@ -7,8 +7,17 @@
    coming out of the implementation can only be an aliased one. *)
 From GK Require Import PropCheck.
 From GK.Proofs Require Import BaseLemmas RepoProofs RecoverProofs.
+From GK.Proofs Require PredProofs RepoProofs2.
 
 Theorem C19_model_never_marked : forall c s o, Forall unmarked s -> op_unmarked o ->
   Forall unmarked (fst (step c s o)) /\ Forall unmarked (res_tasks (snd (step c s o))).
 Proof. exact step_unmarked. Qed.
 Print Assumptions C19_model_never_marked.
+
+(* executable form: the detector p_C19 stays silent on the model's own observation of every step from an unmarked
+   state (and only then: a marked state makes it fire - PredProofs.model_obs_C19_unrestricted_refuted) *)
+Theorem C19_model_satisfies_predicate : forall (c : cfg) (s : repo) (o : op),
+  RepoProofs.wf_repo s -> RepoProofs.op_ok s o -> Forall unmarked s -> op_unmarked o ->
+  p_C19 c s o (RepoProofs2.model_obs c s o) = true.
+Proof. exact PredProofs.model_obs_C19. Qed.
+Print Assumptions C19_model_satisfies_predicate.
